@@ -9,6 +9,9 @@ src, sid = sys.argv[1], sys.argv[2]
 tier = "quick"
 if "--tier" in sys.argv:
     tier = sys.argv[sys.argv.index("--tier") + 1]
+TAGS = []
+if "--tags" in sys.argv:  # build tags needed by the demonstration (e.g. generic: the pure-Go field arithmetic)
+    TAGS = ["-tags", sys.argv[sys.argv.index("--tags") + 1]]
 meta = json.load(open(os.path.join(src, "meta.json")))
 pid = meta["property"]
 env = dict(os.environ, GOFLAGS="-mod=mod", GOPROXY="off", GOSUMDB="off", GOTOOLCHAIN="local", PATH="/opt/veriftools/go1.26.8/bin:" + os.environ["PATH"])
@@ -32,7 +35,7 @@ try:
     res["builds"] = rc == 0
     # existing tests of the touched packages and their dependants inside the same top-level area
     tops = sorted({"./" + f.split("/")[0] + "/..." for f in files})
-    rc, out = sh(["go", "test", "-vet=off", "-count=1", "-short"] + tops, mut)
+    rc, out = sh(["go", "test", "-vet=off", "-count=1", "-short"] + TAGS + tops, mut)
     res["existing_tests_pass"] = rc == 0
     res["ran"].append("go test -vet=off -count=1 -short " + " ".join(tops) + (" -> ok" if rc == 0 else " -> FAIL: " + " ".join(l for l in out.splitlines() if "FAIL" in l)[:300]))
     demo = os.path.join(src, "demo_test.go")
@@ -52,7 +55,7 @@ try:
     runre = "^(" + "|".join(tn) + ")$"
     for name, root in (("with", mut), ("without", clean)):
         shutil.copy(demo, os.path.join(root, ddir, "zz_seed_demo_test.go"))
-        rc, out = sh(["go", "test", "-vet=off", "-count=1", "-run", runre, "./" + ddir + "/"], root)
+        rc, out = sh(["go", "test", "-vet=off", "-count=1"] + TAGS + ["-run", runre, "./" + ddir + "/"], root)
         res["demo_" + name] = "FAIL" if rc != 0 else "PASS"
         res["ran"].append("go test -run '%s' ./%s/ (%s the change) -> %s" % (runre, ddir, name, res["demo_" + name]))
         os.remove(os.path.join(root, ddir, "zz_seed_demo_test.go"))
